@@ -46,7 +46,19 @@ SEED_NOTES = {
     "C10-r3a": "caught after the union machine got a channel funded by a real transaction (first run: missed by every check).",
     "C18-r3a": "caught by C18 after channels were also observed through their permanent id (first run: missed by C18, caught by C04 and C11).",
     "C19-r3b": "caught after the build-time structural comparison of the dispatch enum was added (first run: inconclusive, the registry floor tripped).",
-    "C17-r2a": "the empty nonce is produced inside the LSS gRPC client driver, which is only reachable through a tonic client/server pair; the harness drives the authentication layers below it. Documented limit (DESIGN.md 8.7).",
+    "C17-r2a": "caught since round 7: the client-driver group drives PrivClient over tonic against an in-process storage server (first runs: missed, the driver was not reachable).",
+    "C17-r7a": "caught after the client-driver group was added (first run: missed).",
+    "C13-r7a": "caught after the harness's own restore self-check became an oracle (first run: inconclusive, exit 2: the self-check panicked).",
+    "C15-r7a": "caught after HTLCs with identical scripts and all-but-one sweeps were added (first run: missed).",
+    "C16-r7a": "caught after the crash reopen (byte copy of the open database) was added (first run: missed).",
+    "C09-r7a": "caught after allowlist replacement requests (set_allowlist with an empty list, a strict subset, a disjoint list) were added (first run: missed).",
+    "C19-r7a": "caught after the typed framed writer / reader were added (first run: missed); reported through a fixed-case replay, hence the word regression in the detail.",
+    "C14-r7a": "caught after batch funding (one transaction funding two channels) was added (first run: missed).",
+    "C04-r7a": "caught after the peer-reuses-a-holder-point cases were added (first run: missed).",
+    "C20-r7a": "caught after keysends through a stateless approver were added to the programs (first run: missed).",
+    "C07-r7a": "caught after the replaced holder commitment also went through the raw entry point (first run: missed).",
+    "C01-r7a": "caught by the carve-out filter dimension added in the same round.",
+    "C02-r7a": "a pure interleaving defect (two racing SetupChannel requests for one stub): not reachable by the single-threaded C02 histories; caught by the C20 check.",
 }
 
 
